@@ -12,9 +12,10 @@
   OBLIGATIONS (audited by `check` with `#print axioms`):
     flush_sound, flush_sound_accepted, in_batch_flag_covers_inflight, flush_after_retry,
     wait_timeout_true_only_if_flag, blocking_true_only_if_fired, async_true_only_if_fired_or_hungup,
-    hangup_only_after_teardown
+    hangup_only_after_teardown, handoff_notifies_only_watchers_taken_under_lock, channel_calls_locked_only_in_take
 -/
 import EmitModel.Lemmas.BatcherCover
+import EmitModel.Lemmas.BatcherExt
 import EmitModel.Model.OtlpE2E
 
 namespace EmitModel.C07
@@ -131,6 +132,45 @@ theorem hangup_only_after_teardown (cfg : Cfg) (s : St) (h : Reachable cfg s) :
   invariant_of_step (Inv := fun s => s.dropped ≠ [] → s.tornDown = true) (by simp [init])
     (dropped_step cfg) s h
 
+/-- **A hand-off notifies exactly the flush watchers it took under the lock.** Whatever sender steps land after the
+    critical section of a hand-off — from inside a user-supplied `Channel` method the receiver calls outside the lock
+    (`chanCallsAfter`, `chanCallsIn`), from inside a callback or closure, from another thread — the watchers the
+    receiver holds (the ones this hand-off, or the batch it took, will notify) are exactly those that were pending
+    at the instant the queue was swapped out / found empty: a watcher first registered afterwards is not among them
+    (it waits behind whatever was accepted before it), and the state is an ordinary reachable one, so `flush_sound`
+    applies to it. In particular "send, then when_flushed" landing right after the receiver found the queue empty is
+    not notified by that empty hand-off. -/
+theorem handoff_notifies_only_watchers_taken_under_lock (cfg : Cfg) (s s1 s' : St) (h : Reachable cfg s)
+    (hn : s.registered.Nodup) (ht : s.tornDown = false) (htake : step cfg s .rxTake = some s1)
+    (ls : List Label) (hl : ∀ l ∈ ls, l.isSender = true) (hrun : run (step cfg) s1 ls = some s') :
+    s'.rx = s1.rx ∧ s'.rx.ws = s.pendFlushW ∧ (∀ w, w ∉ s.registered → w ∉ s'.rx.ws) ∧ Reachable cfg s' := by
+  obtain ⟨e1, _, _⟩ := sender_run_rx cfg ls s1 s' hl hrun
+  have hws : s1.rx.ws = s.pendFlushW := by
+    simp only [step, rxTake] at htake
+    flush_split htake <;> rfl
+  refine ⟨e1, by rw [e1, hws], ?_, Sched.Reachable.run (Sched.Reachable.step h htake) hrun⟩
+  intro w hw hin
+  rw [e1, hws] at hin
+  exact hw ((invF_reachable cfg s h hn ht).pend_reg w hin)
+
+/-- **Where the receiver calls user code under the lock.** Of all the `Channel` method calls `Receiver::exec`
+    makes, only the two inside the critical section of the hand-off (`rxTake`) happen with the state lock held; every
+    other one — at the start of `exec`, after the `when_empty` callbacks of a hand-off, before the re-allocation,
+    after a returned remainder — is outside it, i.e. a position between two labels of the system (what stream
+    `batcher` observes on the real receiver by probing the lock from inside its own channel type). -/
+theorem channel_calls_locked_only_in_take (s : St) (l : Label) :
+    (∀ c ∈ chanCallsIn s l, c.locked = true → l = .rxTake) ∧
+    (∀ c ∈ chanCallsAfter s l, c.locked = false) ∧ (∀ c ∈ chanCallsAtStart, c.locked = false) := by
+  refine ⟨?_, ?_, by simp [chanCallsAtStart]⟩
+  · intro c hc hl
+    cases l <;> simp [chanCallsIn] at hc
+    case rxTake => rfl
+    case rxBegin => rcases hc.2 with rfl | rfl <;> simp at hl
+    case rxOutcome o => cases o <;> simp at hc; subst hc; simp at hl
+  · intro c hc
+    cases l <;> simp [chanCallsAfter] at hc
+    all_goals (split at hc <;> simp at hc; subst hc; rfl)
+
 /-- The sequence case of stream `batcher_blocking_c07` (`Model.flushSequence`: two blocking flushes on one thread,
     the first timing out; the earlier call's callback — watcher 1 — runs during the later call): when watcher 1
     has run, item 3 (accepted before flush #2 was requested) is not finalised yet and watcher 2 has not run; when
@@ -145,6 +185,18 @@ example : ∃ s, Reachable (Cfg.real 8) s ∧ s.fired = [1] ∧ s.finalised = [1
 example : ∃ s, Reachable (Cfg.real 8) s ∧ s.fired = [1, 2] ∧ s.finalised = [1, 2, 3] :=
   ⟨_, ⟨seqLabels ++ [.rxOutcome .ok, .rxFireFlush], rfl⟩, by decide⟩
 
+/-- The slow-processor case of stream `batcher_blocking_c07` (`Model.slowFlush`, seeded change C07-r4m2): items
+    `[1, 2]` are with the processor when the companion watcher 0 and the flush's watcher 1 are registered; whatever
+    the attempt's outcome — and however long it takes: the execution below is the same label list for a 1 s and a
+    120 s attempt — both watchers run only after it, with both items through their final attempt (`flush_sound` for
+    this reachable state); one label earlier nothing has fired. -/
+example : ∀ o ∈ [Outcome.ok, .failNoRetry, .panicSync, .panicAsync, .failRetry []],
+    (slowFlush (Cfg.real 4) 2 o 60000).map (fun r => (r.1, r.2.1, r.2.2.1)) = some (true, 2, 2) := by decide
+
+example : ∃ s, Reachable (Cfg.real 4) s ∧ s.rx = .processing [1, 2] [1, 2] [] ∧ s.pendFlushW = [0, 1] ∧
+    s.fired = [] ∧ s.finalised = [] ∧ (1, [1, 2]) ∈ s.obligations :=
+  ⟨_, ⟨[.send 1, .send 2, .rxTake, .rxBegin, .whenFlushed 0, .whenFlushed 1], rfl⟩, by decide⟩
+
 /-! ### Non-vacuity -/
 
 /-- Flush requested while batch `[1]` is in flight and `2` is queued; the batch is retried, succeeds; the next
@@ -156,6 +208,18 @@ def demo : List Label :=
 example : ∃ s, Reachable (Cfg.real 4) s ∧ s.registered.Nodup ∧ s.tornDown = false ∧
     (7, [2, 1]) ∈ s.obligations ∧ (7, [1, 2]) ∈ s.acceptedAt ∧ 7 ∈ s.fired ∧ s.finalised = [1, 2] :=
   ⟨_, ⟨demo, rfl⟩, by decide⟩
+
+/-- The schedule of seeded change C07-r4m1 (corpus of stream `batcher`): the receiver finds the queue empty; `send 1`
+    and `when_flushed 10` land right behind the critical section (inside the `Channel` call that follows it). The
+    empty hand-off does not notify watcher 10 — it is pending behind item 1 — … -/
+example : ∃ s, Reachable (Cfg.real 4) s ∧ s.rx = .taken [] [] [] true ∧ s.pending = [1] ∧ s.pendFlushW = [10] ∧
+    s.fired = [] ∧ (10, [1]) ∈ s.obligations :=
+  ⟨_, ⟨[.rxTake, .send 1, .whenFlushed 10], rfl⟩, by decide⟩
+
+/-- … and runs only after the batch `[1]` has been processed. -/
+example : ∃ s, Reachable (Cfg.real 4) s ∧ s.fired = [10] ∧ s.finalised = [1] :=
+  ⟨_, ⟨[.rxTake, .send 1, .whenFlushed 10, .rxBegin, .rxIdleWaited, .rxTake, .rxBegin, .rxOutcome .ok, .rxFireFlush], rfl⟩,
+   by decide⟩
 
 /-- One step earlier the callback has not run. -/
 example : ∃ s, Reachable (Cfg.real 4) s ∧ 7 ∉ s.fired ∧ s.rx.ws = [7] :=
